@@ -1,3 +1,4 @@
+import Noodles.Props.C04Join
 import Noodles.Props.C04Span
 import Noodles.Csi.QueryModel
 import Noodles.Csi.QueryProof
